@@ -48,9 +48,14 @@ def proof_status(pid, theorems):
     vo = os.path.join(COQ, "theories", "Properties", pid + ".vo")
     if not os.path.exists(vo) or os.path.getmtime(vo) < os.path.getmtime(vo[:-1]):
         return len(theorems), 0, ["Properties/%s.v does not compile (a proof obligation no longer checks)" % pid], []
-    src = "From MS Require Import Properties.%s.\n" % pid
+    mods = sorted({t.split(".")[0] for t in theorems if "." in t} | {pid})
+    for m in mods:
+        mvo = os.path.join(COQ, "theories", "Properties", m + ".vo")
+        if not os.path.exists(mvo) or os.path.getmtime(mvo) < os.path.getmtime(mvo[:-1]):
+            return len(theorems), 0, ["Properties/%s.v does not compile (a proof obligation no longer checks)" % m], []
+    src = "".join("From MS Require Properties.%s.\n" % m for m in mods)
     for t in theorems:
-        src += "Print Assumptions %s.\n" % t
+        src += "Print Assumptions %s.\n" % (("MS.Properties." + t) if "." in t else ("MS.Properties.%s.%s" % (pid, t)))
     tmp = os.path.join(CACHE, "assume_%s.v" % pid)
     with open(tmp, "w") as f:
         f.write(src)
